@@ -8,7 +8,7 @@ use arrow_buffer::NullBuffer;
 use arrow_schema::{DataType, Field};
 use hxlib::util::{catch, coq, Args, Rng, Sink, Stream};
 use lance_index::vector::kmeans::{
-    compute_partition, compute_partitions_arrow_array, kmeans_find_partitions, kmeans_find_partitions_arrow_array, KMeansAlgo, KMeansAlgoFloat,
+    compute_partition, compute_partitions, compute_partitions_arrow_array, kmeans_find_partitions, kmeans_find_partitions_arrow_array, KMeansAlgo, KMeansAlgoFloat,
 };
 use lance_linalg::distance::hamming::{hamming, hamming_distance_arrow_batch, hamming_distance_batch, hamming_scalar};
 use lance_linalg::distance::{
@@ -291,7 +291,7 @@ fn float_ops() -> Vec<Op> {
 
 fn stream_vec(sink: &mut Sink, rng: &mut Rng, args: &Args) {
     let mut s = Stream::new("vec", REQ, "chk_vec", "list Z * list Z", "list (kop * outcome xval)");
-    s.shard = if args.thorough() { 100 } else { 45 };
+    s.shard = if args.thorough() { 100 } else { 90 };
     let lens = lengths(rng, args.thorough());
     // fixed regression inputs first: the Rust unit tests of the anchored files
     let t8: Vec<i64> = (2..10).collect();
@@ -739,7 +739,7 @@ fn on(o: Option<u32>) -> String {
 fn stream_argmin(sink: &mut Sink, rng: &mut Rng, args: &Args) {
     let ty = "option (N * Z) * option N * option N * option (option (N * Z) * option N * option N * option (N * Z))";
     let mut s = Stream::new("argmin", REQ, "chk_argmin", "Z * Z * Z * list fv", ty);
-    s.shard = 700;
+    s.shard = 1500;
     // ---- f32 items (key = monotone image of the bits), with NaN / inf / MAX / MIN / -0 / nulls
     let specials = [f32::NAN, f32::INFINITY, f32::NEG_INFINITY, f32::MAX, f32::MIN, 0.0, -0.0, f32::MIN_POSITIVE, 1.0, -1.0];
     let mut lists: Vec<Vec<Option<f32>>> = vec![
@@ -1192,8 +1192,91 @@ fn stream_member(sink: &mut Sink, rng: &mut Rng, args: &Args) {
         };
         sf.push(inp, out, json!({"ty": t.coq(), "metric": format!("{m:?}"), "centroids": c, "query": v, "nprobes": nprobes, "via_arrow": via_arrow, "out": format!("{r:?}")}));
     }
+    // ---- kmeans_find_partitions_binary (u8, hamming), directly and via the Arrow entry point
+    for i in 0..args.vol(60, 600) {
+        let dim = *rng.pick(&[1usize, 2, 8, 63, 64, 65, 130]);
+        let k = rng.range(0, 6) as usize;
+        let c: Vec<i64> = byte_vec(rng, k * dim);
+        let q: Vec<i64> = byte_vec(rng, dim);
+        let m = if i % 11 == 3 { Metric::L2 } else { Metric::Hamming };
+        let nprobes = rng.range(0, k as u64 + 2) as usize;
+        let via_arrow = rng.bool();
+        let (cu, qu) = (conv::<u8>(&c), conv::<u8>(&q));
+        let r: Result<Result<Vec<(u32, f32)>, ()>, bool> = catch(|| {
+            let res = if via_arrow {
+                let ca = fsl(ATy::U8, &c, dim, &vec![true; k]).unwrap();
+                kmeans_find_partitions_arrow_array(&ca, &UInt8Array::from(qu.clone()), nprobes, m.dt())
+            } else {
+                lance_index::vector::kmeans::kmeans_find_partitions_binary(&cu, &qu, nprobes, m.dt())
+            };
+            res.map(|(i, d)| i.values().iter().copied().zip(d.values().iter().copied()).collect()).map_err(|_| ())
+        });
+        if let (Ok(Ok(got)), Metric::Hamming) = (&r, m) {
+            let all: Vec<i128> = c.chunks_exact(dim).map(|cc| hamming_ref(&q, cc)).collect();
+            let mut sorted = all.clone();
+            sorted.sort();
+            let ok = got.len() == nprobes.min(all.len())
+                && got.iter().enumerate().all(|(j, (idx, d))| (*idx as usize) < all.len() && all[*idx as usize] == sorted[j] && *d == all[*idx as usize] as f32)
+                && (0..got.len()).all(|a| (0..a).all(|b| got[a].0 != got[b].0));
+            if ok {
+                sink.oracle_ok();
+            } else {
+                sink.oracle_fail(None, "kmeans_find_partitions_binary does not return the nprobes nearest centroids", json!({"centroids": c, "query": q, "dim": dim, "nprobes": nprobes, "got": format!("{got:?}")}));
+            }
+        }
+        sink.count(&format!("find:u8:{:?}:{}", m, if via_arrow { "arrow" } else { "slices" }));
+        let co: Vec<Option<i64>> = c.iter().map(|z| Some(*z)).collect();
+        let qo: Vec<Option<i64>> = q.iter().map(|z| Some(*z)).collect();
+        let inp = format!("(U8, {}, {}, {}, {})", m.coq(), ozl(&co), ozl(&qo), nat(nprobes));
+        sink.nontrivial(&inp);
+        let out = match &r {
+            Ok(Ok(g)) => format!("(Ok {})", coq::list(g.iter().map(|(i, d)| format!("({}, {})", i, xv(*d))))),
+            Ok(Err(())) => "Err".into(),
+            Err(_) => "Panic".into(),
+        };
+        sf.push(inp, out, json!({"ty": "U8", "metric": format!("{m:?}"), "centroids": c, "query": q, "nprobes": nprobes, "via_arrow": via_arrow, "out": format!("{r:?}")}));
+    }
     sink.add(s);
     sink.add(sf);
+
+    // ---- compute_partitions: membership + total loss (sum of the distances, f64)
+    let mut s = Stream::new("loss", REQ, "chk_loss", "ety * metric * list (option Z) * list (option Z) * nat", "outcome (list (option N) * Z)");
+    s.shard = 400;
+    for _ in 0..args.vol(120, 1500) {
+        let t = *rng.pick(&[Ty::F32, Ty::F64, Ty::F16]);
+        let m = *rng.pick(&[Metric::L2, Metric::L2, Metric::Dot]);
+        let dim = *rng.pick(&[1usize, 2, 3, 8, 9, 16, 17, 40]);
+        let k = rng.range(0, 6) as usize;
+        let n = rng.range(0, 6) as usize;
+        let mag = *rng.pick(&[1i64, 2, 8]);
+        let nan = rng.chance(1, 4);
+        let c = opt_vec(rng, k * dim, mag, nan, false);
+        let d = opt_vec(rng, n * dim, mag, nan, false);
+        let r: Result<(Vec<Option<u32>>, f64), bool> = match t {
+            Ty::F32 => catch(|| compute_partitions::<Float32Type, KMeansAlgoFloat<Float32Type>>(&Float32Array::from(conv_opt::<f32>(&c)), &Float32Array::from(conv_opt::<f32>(&d)), dim, m.dt())),
+            Ty::F64 => catch(|| compute_partitions::<Float64Type, KMeansAlgoFloat<Float64Type>>(&Float64Array::from(conv_opt::<f64>(&c)), &Float64Array::from(conv_opt::<f64>(&d)), dim, m.dt())),
+            _ => catch(|| compute_partitions::<Float16Type, KMeansAlgoFloat<Float16Type>>(&Float16Array::from(conv_opt::<half::f16>(&c)), &Float16Array::from(conv_opt::<half::f16>(&d)), dim, m.dt())),
+        };
+        if let Ok((mem, loss)) = &r {
+            // oracle: brute force membership and the sum of the minimal distances
+            let exp: Vec<Option<(u32, i128)>> = d.chunks_exact(dim).map(|v| brute_assign(m, &c, v, dim)).collect();
+            let ok = mem.len() == exp.len() && mem.iter().zip(&exp).all(|(a, b)| *a == b.map(|p| p.0)) && *loss == exp.iter().map(|e| e.map(|p| p.1).unwrap_or(0)).sum::<i128>() as f64;
+            if ok {
+                sink.oracle_ok();
+            } else {
+                sink.oracle_fail(None, "compute_partitions: membership / loss differ from the brute-force nearest centroid", json!({"ty": t.coq(), "metric": format!("{m:?}"), "dim": dim, "centroids": c, "data": d, "got": format!("{r:?}")}));
+            }
+        }
+        sink.count(&format!("loss:{:?}", m));
+        let inp = format!("({}, {}, {}, {}, {})", t.coq(), m.coq(), ozl(&c), ozl(&d), nat(dim));
+        sink.nontrivial(&format!("loss{inp}"));
+        let out = match &r {
+            Ok((mem, loss)) => format!("(Ok ({}, {}))", coq::list(mem.iter().map(|o| on(*o))), if loss.fract() == 0.0 && loss.abs() < 1e30 { coq::z(*loss as i128) } else { "(-999999999999)%Z".into() }),
+            Err(_) => "Panic".into(),
+        };
+        s.push(inp, out, json!({"ty": t.coq(), "metric": format!("{m:?}"), "dim": dim, "centroids": c, "data": d, "out": format!("{r:?}")}));
+    }
+    sink.add(s);
 }
 
 pub fn fsl_opt(ty: ATy, values: &[Option<i64>], dim: usize) -> Option<FixedSizeListArray> {
